@@ -6,7 +6,7 @@
    np.interp'ed edge indices);  impl_conserve = the 'conserve' branch of interpSigma.
    mono xs = strictly ascending or strictly descending; lo_of / hi_of = its smallest / largest end.
    All theorems hold for sources / grids of ANY length >= 2 in BOTH directions and EVERY target;
-   the only restriction left is the single-level source (C17_single_level_refuted, a known finding). *)
+   a single source level gets weight one (C17_single_level_repaired). *)
 From PNC Require Import Base.Util Gen.InterpSrc Model.Interp Proofs.InterpProofs Proofs.SigmaProofs.
 Local Open Scope Z_scope.
 
@@ -96,13 +96,7 @@ Theorem C17_model_follows_source : impl_weights = impl_weights_gen Gen.InterpSrc
 Proof. reflexivity. Qed.
 Print Assumptions C17_model_follows_source.
 
-(* without the guard the weights are NaN (None), not the identity: known finding *)
-Theorem C17_single_level_refuted : exists e xs x,
-  (1 <= length xs)%nat /\ x = nth 0 xs 0 /\ impl_weights_gen false e xs x = None.
-Proof. exists false, [3], 3. vm_compute. repeat split; auto. Qed.
-Print Assumptions C17_single_level_refuted.
-
-(* with the guard (fixes/C17-getinterpweights-single-level.patch) a single level gets weight one
+(* with the guard (commit 2b86c82; without it interp1d gave NaN weights) a single level gets weight one
    for every target: partition of unity, non-negative, identity at the source point, and exact
    for every linear profile at the only point inside the source range *)
 Theorem C17_single_level_repaired : forall e x0 x a b,
